@@ -302,6 +302,13 @@ def m_returns_default_plain(draw, ir):
     ir["returns"]["default"] = draw(st.sampled_from(("```self.model```", "```np.empty(0)```", "```foo(5)```")))
 
 
+def m_long_return_prose(draw, ir):
+    """A return entry whose prose alone is longer than the default width (the ':returns:' line cannot fit on one line)."""
+    m_returns_default(draw, ir)
+    i = draw(st.integers(0, len(WORDS) - 1))
+    ir["returns"]["doc"] = " ".join(WORDS[(i + 5 * j) % len(WORDS)] for j in range(draw(st.integers(16, 24)))) + " end"
+
+
 def m_returns_untyped(draw, ir):
     ir["returns"] = OrderedDict(doc=draw(prose()))
 
@@ -322,7 +329,11 @@ def m_no_params(draw, ir):
 
 
 def m_multiline_summary(draw, ir):
-    ir["doc"] = "%s\n%s" % (ir["doc"], draw(prose()))
+    if draw(st.integers(0, 2)) == 0:
+        # three lines that are short each but longer than the width together (not a paragraph to re-flow)
+        ir["doc"] = "\n".join([ir["doc"]] + [draw(prose(6, 8)) for _ in range(2)])
+    else:
+        ir["doc"] = "%s\n%s" % (ir["doc"], draw(prose()))
 
 
 def m_multiline_prose(draw, ir):
@@ -331,10 +342,17 @@ def m_multiline_prose(draw, ir):
         p["doc"] = "%s\n%s" % (p["doc"], draw(prose()))
 
 
+HYPHENATED = ("well-tested", "pre-trained", "look-up", "state-of-the-art", "re-use", "long-running")
+
+
 def m_long_prose(draw, ir):
     p = _pick(draw, ir["params"], lambda p: "doc" in p)
     if p is not None:
-        p["doc"] = " ".join([p["doc"]] + [draw(prose(5, 7)) for _ in range(draw(st.integers(3, 5)))])
+        parts = [p["doc"]] + [draw(prose(5, 7)) for _ in range(draw(st.integers(3, 5)))]
+        # hyphenated compounds: a wrapper may break lines at spaces only, or the re-joined prose reads "well- tested"
+        for j in range(1, len(parts)):
+            parts[j] = "%s %s" % (draw(st.sampled_from(HYPHENATED)), parts[j])
+        p["doc"] = " ".join(parts)
 
 
 def m_long_summary(draw, ir):
@@ -510,7 +528,7 @@ def ir_strategy(draw, allowed=(), forced=None, max_params=5, min_params=0, argpa
         rest = [p for p in ir["params"] if p["name"].endswith("kwargs")]
         ir["params"] = [p for p in plain if "default" not in p] + [p for p in plain if "default" in p] + rest
     if forced not in ("long_prose", "long_type") and not ({"long_prose", "long_type"} & set(allowed)):
-        fit_width(ir)
+        fit_width(ir, keep_return=forced == "long_return_prose")
     for p in ir["params"]:
         p.pop("_dflts", None)
     ir["params"] = [dict(p) for p in ir["params"]]
@@ -526,7 +544,7 @@ def est_width(p):
     return max(len(doc) + len(d) + len(p.get("name", "")) + 28, len(p.get("name", "")) + len(p.get("typ") or "") + 16)
 
 
-def fit_width(ir, limit=92):
+def fit_width(ir, limit=92, keep_return=False):
     """By construction (no rejection): shorten prose word by word until every entry fits the default width."""
     entries = list(ir["params"]) + ([dict(ir["returns"], name="return_type")] if ir.get("returns") else [])
     for p in ir["params"]:
@@ -540,7 +558,7 @@ def fit_width(ir, limit=92):
                 lines.pop(longest)
             p["doc"] = "\n".join(lines)
     r = ir.get("returns")
-    if r and "doc" in r:
+    if r and "doc" in r and not keep_return:
         while len(r["doc"]) + len(r.get("default", "")) + 28 > limit and len(r["doc"].split()) > 1:
             r["doc"] = " ".join(r["doc"].split(" ")[:-1])
 
@@ -714,6 +732,8 @@ def tags_of(ir):
             tags.add("returns_undocumented")
         if "typ" in r and "[" not in r["typ"]:
             tags.add("returns_plain_type")
+        if len(r.get("doc") or "") > 90:
+            tags.add("long_return_prose")
     doc = ir.get("doc") or ""
     if "\n" in doc:
         tags.add("multiline_summary")
